@@ -11,8 +11,17 @@ discards.  The threshold handed to the model is np.percentile of the non-zero
 pixels computed by the harness (np.percentile is trusted, not the
 implementation's percentile_threshold).  where_close / drop_close are also driven
 directly on explicit point sets (second harness).
+
+Tie (route T).  tools/py2coq_find.py re-translates the CURRENT text of
+trackpy/find.py (percentile_threshold, where_close, drop_close, grey_dilation) into
+coq/Gen/find.v on every run, before the build; Proofs/FindGen.v proves the
+generated functions equal to Model/Dilation.v for all inputs and Properties/C06.v
+restates the theorems for them (C06_gen_*).  A translation error (the source left
+the translatable subset) or a proof about the generated functions that no longer
+checks is reported through chk.proof_broken; the correspondence run below still
+takes place against the hand-written model and looks for a concrete failing input.
 """
-import itertools, json, math
+import hashlib, itertools, json, math, os, sys
 import numpy as np
 from fractions import Fraction
 import common
@@ -40,6 +49,71 @@ CODES = {
     14: 'where_close differs from the model only in the tie rule (coordinate sum, then order)',
     15: 'drop_close did not return exactly the rows not listed by where_close',
 }
+
+
+TRANSLATOR = os.path.join(common.VERIF, 'tools', 'py2coq_find.py')
+GEN = os.path.join(common.COQ, 'Gen', 'find.v')
+
+
+# ----------------------------------------------------- translator / build
+def regenerate(chk):
+    """re-run the translator on the current source; returns (ok, text-or-log)"""
+    rc, out = common.sh([sys.executable, TRANSLATOR, '--repo', common.REPO, '--stdout'], timeout=60)
+    if rc != 0:
+        return False, out
+    with common.Lock(os.path.join(common.COQ, '.build.lock')):
+        old = open(GEN).read() if os.path.exists(GEN) else None
+        if old != out:
+            os.makedirs(os.path.dirname(GEN), exist_ok=True)
+            tmp = GEN + '.tmp%d' % os.getpid()
+            with open(tmp, 'w') as f:
+                f.write(out)
+            os.replace(tmp, GEN)
+            chk.tally('Gen/find.v rewritten (source differs from last run)')
+        else:
+            chk.tally('Gen/find.v unchanged')
+    return True, out
+
+
+def ensure_model(chk):
+    """Model/DilationCheck.vo (hand-written model + monitors, executable) is needed by the correspondence
+    run even when the translation or a proof about the generated functions is broken"""
+    def fresh(v):
+        vo = os.path.join(common.COQ, v + 'o')
+        return os.path.exists(vo) and os.path.getmtime(vo) >= os.path.getmtime(os.path.join(common.COQ, v))
+    files = ('Model/Dilation.v', 'Model/DilationCheck.v')
+    if all(fresh(v) for v in files):
+        return True
+    with common.Lock(os.path.join(common.COQ, '.build.lock')):
+        for v in files:
+            rc, out = common.sh('timeout 300 coqc -Q . TP %s' % v, timeout=330, cwd=common.COQ)
+            if rc != 0:
+                chk.proof_broken(v, out)
+                return False
+    return True
+
+
+def build(chk):
+    """translator -> cone of Properties/C06.v; returns True when the executable model is available"""
+    ok, text = regenerate(chk)
+    if not ok:
+        chk.proof_broken('translation tools/py2coq_find.py (trackpy/find.py left the translatable subset)', text)
+        chk.build = dict(obligations=0, discharged=0, assumptions=[], files=[], theorems=[])
+    else:
+        for attempt in range(3):
+            b = chk.coq()
+            if open(GEN).read() == text:
+                break
+            # another run (different TRACKPY_REPO) rewrote the generated file in between: redo
+            chk.violations = [v for v in chk.violations if not v[0].startswith('proof:')]
+            regenerate(chk)
+        chk.notes.append('Gen/find.v sha1 %s generated from %s' % (hashlib.sha1(text.encode()).hexdigest()[:12], common.REPO))
+        if not b['ok']:
+            # say which statement about the generated functions no longer checks
+            with common.Lock(os.path.join(common.COQ, '.build.lock')):
+                rc, out = common.sh('timeout 600 make Proofs/FindGen.vo 2>&1 | tail -25', timeout=630, cwd=common.COQ)
+            chk.notes.append('make Proofs/FindGen.vo (generated functions = model): ' + out[-2500:])
+    return ensure_model(chk)
 
 
 # ---------------------------------------------------------------- literals
@@ -563,7 +637,8 @@ def exhaustive(chk):
 
 def run(chk):
     common.quiet_trackpy()
-    chk.coq()
+    if not build(chk):
+        return          # not even the hand-written model builds: reported, nothing can be executed
     rng = chk.rng
     n = 220 if chk.tier == 'quick' else 3000
     cases = corpus() + [gen_case(rng, chk.tier) for _ in range(n)]
@@ -589,6 +664,9 @@ def run(chk):
         "Second harness: where_close/drop_close on explicit point sets (quarter-pixel lattice, duplicates, ties, DataFrame input, zero separation).  "
         "non-trivial = image with > 1 pixel and >= 1 candidate maximum / point set with >= 1 dropped feature; distinct by content hash")
     chk.assumptions += [
+        "Gen/find.v is produced from the current trackpy/find.py by tools/py2coq_find.py (trusted, fail-closed; subset, conventions and the list of numpy / scipy primitives in its "
+        "docstring and in Model/PyFind.v); the C06_gen_* theorems are about that text (separations >= 0; np.percentile a parameter; int(2*s/sqrt(ndim)) as the exact integer); "
+        "validate_tuple is taken as the identity on the tuple handed over, convert_to_int (trackpy/preprocessing.py) is not translated and stays tied by the float cases of this run",
         "scipy.ndimage.grey_dilation(image, size, mode='constant') = max over the reflected box [i-(s-1)//2, i+s//2] with zeros outside (modelled; exercised on every case)",
         "np.percentile is trusted: the harness recomputes the threshold with np.percentile on the non-zero pixels and hands it to the model as an exact rational",
         "cKDTree.query_pairs(1-1e-7) = all pairs at rescaled distance < 1; cases with a pair within 1e-6 of the boundary are skipped and counted",
@@ -602,7 +680,8 @@ def run(chk):
 
 def replay(chk, path):
     common.quiet_trackpy()
-    chk.coq()
+    if not build(chk):
+        return
     r = json.load(open(path))['replay']
     if r.get('kind') == 'gd':
         c = from_json(r['case'])
